@@ -59,7 +59,7 @@ def decodeRecord (data : ByteArray) : Option Record :=
   match decodeHeader data with
   | none => none
   | some h =>
-    if h.hlen + h.ksize + h.vsize > data.size then none else
+    if h.hlen + h.ksize + h.vsize ≠ data.size then none else
     some { typ := h.typ, key := data.extract h.hlen (h.hlen + h.ksize),
            value := data.extract (h.hlen + h.ksize) (h.hlen + h.ksize + h.vsize), batch := h.batch }
 
@@ -67,7 +67,7 @@ def decodeValue (data : ByteArray) : Option ByteArray :=
   match decodeHeader data with
   | none => none
   | some h =>
-    if h.hlen + h.ksize + h.vsize > data.size then none else
+    if h.hlen + h.ksize + h.vsize ≠ data.size then none else
     some (data.extract (h.hlen + h.ksize) (h.hlen + h.ksize + h.vsize))
 
 def encodeHint (key : ByteArray) (p : Pos) : ByteArray :=
